@@ -17,6 +17,8 @@ NativeClasses == {"FlatMap", "SeqScalars", "SeqFlatMaps", "SeqFlatSeqs", "Nested
                   "NonDictMapping"}   \* string-keyed mappings that are not dict subclasses (MappingProxyType, UserDict, ChainMap)   \* JSON-native data
 DegradedClasses == {"WithSet", "WithDatetime", "WithToDict", "WithAsDict", "WithPlainObject", "SetValue", "BytesInside"}  \* need help
 SerClasses == NativeClasses \cup DegradedClasses
+\* shapes the HTML-table clause covers: flat mappings, sequences of scalars, of flat mappings, of flat sequences
+TabularClasses == {"FlatMap", "SeqScalars", "SeqFlatMaps", "SeqFlatSeqs"}
 AllClasses == TextClasses \cup ScalarClasses \cup SerClasses
 
 Labels == {"application/json", "text/html", "text/plain"}
@@ -37,7 +39,8 @@ Outcomes(c, fmt, acc) ==
              html == <<"text/html", "table">>
          IN CASE AsksHtml(fmt, acc) = "no" -> {json}
               [] AsksHtml(fmt, acc) = "maybe" -> {json, html}
-              [] AsksHtml(fmt, acc) = "yes" -> {html, json}     \* JSON when the value has no tabular shape
+              [] AsksHtml(fmt, acc) = "yes" -> IF c \in TabularClasses THEN {html}     \* a tabular shape: the table it is
+                                               ELSE {html, json}                  \* JSON when the value has no tabular shape
 
 VARIABLES c, fmt, acc
 vars == <<c, fmt, acc>>
